@@ -66,3 +66,31 @@ def always_calls(P, targets_rx, scope_crate='autosar_data', propagate_check=None
                 S[b.id] = cps
                 changed = True
     return S
+
+
+def iteration_start(b, pos):
+    """start of the innermost loop iteration containing pos (loop header), or the function entry"""
+    best = None
+    for h, body in b.natural_loops():
+        if pos[0] in body and (best is None or len(body) < best[1]):
+            best = (h, len(body))
+    return (best[0], 0) if best else (0, 0)
+
+
+def guarded_by_true(b, site, call_pos, negate=False):
+    """True iff every path from the start of the loop iteration (or the function entry) to `site` takes the TRUE edge of
+    the switch that tests the boolean result of the call at call_pos (FALSE edge when negate).  Sound for bool results
+    tested directly (switchInt on the result or a copy); a `!` in between must be expressed through negate."""
+    from flow import switch_edges_on_call_result, must_pass
+    sw = switch_edges_on_call_result(b, call_pos)
+    if not sw:
+        return False
+    blk, ts, els = sw
+    if set(ts.keys()) != {'0'}:
+        return False
+    want = ts['0'] if negate else els
+    start = iteration_start(b, site)
+    if not b.pos_dominates(call_pos, site):
+        # the call itself may sit inside the iteration; the cut test below is what decides
+        pass
+    return must_pass(b, start, [site], through=(), avoid_edges={(blk, want)})
